@@ -110,6 +110,7 @@ public:
     }
 
     [[nodiscard]] n_keys_body_type get_n_keys() {
+        YAKUSHIMA_VERIF_PRE(k_load, o_nkeys, &n_keys_);
         return n_keys_.load(std::memory_order_acquire);
     }
 
@@ -137,6 +138,7 @@ public:
                     /**
                      * The key_slice must be left direction of the index.
                      */
+                    YAKUSHIMA_VERIF_PRE(k_load, o_child, &children.at(i));
                     ret_child = children.at(i);
                     break;
                 }
@@ -145,6 +147,7 @@ public:
                 /**
                  * The key_slice must be right direction of the index.
                  */
+                YAKUSHIMA_VERIF_PRE(k_load, o_child, &children.at(n_key));
                 ret_child = children.at(n_key);
                 if (ret_child == nullptr) {
                     // SMOs have found, so retry from a root node
@@ -246,6 +249,7 @@ public:
     }
 
     void set_n_keys(const n_keys_body_type new_n_key) {
+        YAKUSHIMA_VERIF_PRE(k_store, o_nkeys, &n_keys_);
         n_keys_.store(new_n_key, std::memory_order_release);
     }
 
@@ -274,9 +278,23 @@ public:
         }
     }
 
+#ifdef YAKUSHIMA_VERIF
+    void n_keys_decrement() {
+        YAKUSHIMA_VERIF_PRE(k_rmw, o_nkeys, &n_keys_);
+        n_keys_.fetch_sub(1);
+    }
+#else
     void n_keys_decrement() { n_keys_.fetch_sub(1); }
+#endif
 
+#ifdef YAKUSHIMA_VERIF
+    void n_keys_increment() {
+        YAKUSHIMA_VERIF_PRE(k_rmw, o_nkeys, &n_keys_);
+        n_keys_.fetch_add(1);
+    }
+#else
     void n_keys_increment() { n_keys_.fetch_add(1); }
+#endif
 
     void swap_child(base_node* const old_child, base_node* const new_child) {
         for (std::size_t i = 0; i < child_length; ++i) {
